@@ -135,6 +135,11 @@ func prepare(repo, verifDir string, forcePlain bool) (*prepared, error) {
 			return "", fmt.Errorf("instrument: %w", err)
 		}
 		p.Instr = res
+		if res.MapRanges > 0 {
+			if err := instr.BumpGoVersion(scratch); err != nil {
+				return "", err
+			}
+		}
 		if err := instr.WriteSiteTable(scratch, res, !plainInstr); err != nil {
 			return "", err
 		}
